@@ -284,7 +284,9 @@ func (x *X) wfFact(v Term, t types.Type, alloc Term) Term {
 			return x.enc.rangeFact(v, t)
 		}
 		if u.Info()&types.IsString != 0 {
-			return x.enc.intCmp(token.GEQ, app(x.enc.isz(), "strlen", v), x.enc.intConstW(bigZero, 64), types.Typ[types.Int])
+			ln := app(x.enc.isz(), "strlen", v)
+			return mkAnd(x.enc.intCmp(token.GEQ, ln, x.enc.intConstW(bigZero, 64), types.Typ[types.Int]),
+				x.enc.intCmp(token.LEQ, ln, x.enc.intConstW(big.NewInt(0x3fffffffffffffff), 64), types.Typ[types.Int]))
 		}
 	case *types.Pointer, *types.Map, *types.Chan:
 		return mkAnd(app(SBool, "<=", intLit(0), v), app(SBool, "<", v, alloc))
